@@ -35,6 +35,7 @@ FIXES = {  # subject prefix -> properties whose check must fire when the fix is 
     "fix: order()": ["C06"],
     "fix: read_text without": ["C50"],
     "fix: store names": ["C29"],
+    "fix: computing mixed": ["C14"],
 }
 
 
